@@ -55,8 +55,8 @@ MANIFEST = dict(
     'The published generating function keeps y_i of an unavailable alone alternative (the kernel ignores it): the Euler relation is checked on rows without such an alternative. '
     'Observations (not findings): the cross-nested code multiplies by the availability value, so (a) an indicator 2 weights the term (reductions stated for 0/1 indicators) and (b) the '
     'utilities of unavailable alternatives are read: a missing-value code 99999 on an unavailable alternative makes cnl/cnlmu raise where nested and logit ignore it; '
-    'cnlmu recognises a zero membership only when it is written as a constant (a Beta of value 0 in every nest gives probability 0, cnl treats it as alone): '
-    'the membership tables of the streams write the zeros of an alternative outside every nest as constants.',
+    'Known finding F-C06-2: cnlmu recognises a zero membership only when it is written as a constant (a Beta of value 0 in every nest gives probability 0, cnl treats the alternative as alone): '
+    'the membership tables of the main streams write the zeros of an alternative outside every nest as constants, a separate stream writes them as parameters (the model takes the value: repaired behaviour).',
 )
 TRUSTED = [
     'real arithmetic vs IEEE doubles (comparison tolerance 1e-9; numerical gradient by central differences, tolerance 1e-6)',
@@ -80,6 +80,7 @@ MISSING = 99999.0
 W_GEN = 'models.get_mev_generating_for_nested vs get_mev_for_nested'
 W_EULER = 'models.nested vs get_mev_for_nested and get_mev_generating_for_nested'
 W_MISSING = 'nested family on rows where an unavailable member of a nest carries the missing-value code'
+W_PARAM_ZERO = 'models.cnlmu: an alternative whose membership is a parameter of value 0 in every nest'
 
 
 def safe_exp(x):
@@ -371,6 +372,43 @@ def rel_tuple_syntax(ctx, res, rng):
             res.tally('overlapping nests, both syntaxes')
             if outs[0] != outs[1] or outs[0] != 'BiogemeError':
                 res.violate(f'{fam}: overlapping nests are not refused alike in both syntaxes', bad, outs, ['BiogemeError', 'BiogemeError'], where=w)
+
+
+def rel_param_zero(ctx, res, rng):
+    """finding F-C06-2: the zero memberships of an alternative outside every nest written as fixed
+    parameters (Beta of value 0) instead of constants.  cnl applies logzero to the *value* of the
+    sum of the terms (the alternative is alone in its own nest); cnlmu recognises constants only and
+    gives the alternative probability 0.  Kept apart from the other streams (its own call site)."""
+    case = outside = None
+    for _ in range(40):
+        case = gen_case(rng, 'nestedmu', k=rng.randint(3, 6))
+        in_nest = {a for m in case['nests']['list'] for a in m['alts']}
+        outside = [a for a in case['alts'] if a not in in_nest]
+        if outside:
+            break
+    if not outside:
+        return
+    if rng.random() < 0.4:
+        case['mu']['v'] = 1.0
+    cnl = pad_zero(rng, to_degenerate_cnl(rng, case, 'cnlmu'), True)
+    target = rng.choice(outside)
+    for m in cnl['nests']['list']:
+        for t in m['alphas']:
+            if t[0] in outside and (t[0] == target or rng.random() < 0.5):
+                t[2] = 'beta'
+    cnl['nests']['table'] = 'full, zeros of an outside alternative as parameters'
+    res.count({'rel': 'param_zero', 'case': cnl}, nontrivial=True)
+    res.tally('cnlmu(full table, parameter zeros) = nested (F-C06-2)')
+    compare_pair(res, 'cnlmu with whole memberships (full table, the zeros of an alternative outside every nest are parameters of value 0) vs nested logit',
+                 cnl, case, W_PARAM_ZERO)
+    # the version without scale takes the value of the sum: no finding there
+    plain = {k: v for k, v in cnl.items() if k != 'mu'}
+    plain['family'] = 'cnl'
+    nested = {k: v for k, v in case.items() if k != 'mu'}
+    nested['family'] = 'nested'
+    compare_pair(res, 'cnl with whole memberships (full table, parameter zeros) vs nested logit', plain, nested,
+                 'models.cnl (each alternative wholly in one nest) vs models.nested', log_too=False)
+    model_pair(ctx, res, 'degenerate cnlmu (parameter zeros) = nested', cnl, case, W_PARAM_ZERO)
 
 
 # --------------------------------------------------------------------------- generating function
@@ -787,6 +825,18 @@ def _full_table(fam, av, mu=None):
 # (cross-nested logit, full table) vs (nested logit): F-C06-1 (fixed in the repository) and the shape of the Swissmetro examples
 CORPUS_TABLE = [_full_table('cnl', None), _full_table('cnl', _AV5), _full_table('cnlmu', None, 1.0), _full_table('cnlmu', _AV5, 1.0), _full_table('cnlmu', _AV5, 1.75)]
 
+# F-C06-2 (known finding): the zeros of alternative 5 as fixed parameters
+def _param_zero_corpus():
+    cnl, nested = _full_table('cnlmu', _AV5, 1.0)
+    cnl = copy.deepcopy(cnl)
+    for m in cnl['nests']['list']:
+        for t in m['alphas']:
+            if t[0] == 5:
+                t[2] = 'beta'
+    cnl['nests']['table'] = 'full, zeros of an outside alternative as parameters'
+    return cnl, nested
+
+
 RELATIONS = [rel_mu_one, rel_cnl_degenerate, rel_cnl_single_nest, rel_scale_one, rel_tuple_syntax, rel_generating, rel_euler, rel_named_nests]
 
 
@@ -805,6 +855,10 @@ def check_corpus(ctx, res):
             base = {k: v for k, v in cnl.items() if k != 'mu'}
             base['family'] = 'cnl'
             compare_pair(res, 'cnlmu with scale 1 vs cnl (full table)', cnl, base, 'models.cnlmu (mu = 1) vs unscaled')
+    cnl, nested = _param_zero_corpus()
+    res.count({'rel': 'param_zero', 'case': cnl}, nontrivial=True)
+    res.tally('corpus')
+    compare_pair(res, 'cnlmu (mu = 1) with whole memberships (full table, the zeros of alternative 5 are parameters of value 0) vs nested logit', cnl, nested, W_PARAM_ZERO)
 
 
 def check(ctx) -> Result:
@@ -818,6 +872,8 @@ def check(ctx) -> Result:
                 rel(ctx, res, rng)
             if len(res.violations) > 20:
                 break
+        for _ in range(ctx.n(4, 60)):
+            rel_param_zero(ctx, res, rng)
         rel_missing_codes(ctx, res, rng, ctx.n(12, 150))
         ctx.batch.flush()
     return res
@@ -842,7 +898,7 @@ def search(ctx, res, broken):
                 break
         if not r2.violations:
             rel_missing_codes(C2, r2, rng, 20)
-    res.violations.extend(r2.violations[:3])
+    res.violations.extend([v for v in r2.violations if v.get('where') != W_PARAM_ZERO][:3])
 
 
 def replay(ctx, obj):
